@@ -1,13 +1,67 @@
 package main
 
 import (
+	"fmt"
 	"go/types"
 
 	"golang.org/x/tools/go/ssa"
 )
 
+// globalConst models package-level maps that are initialised in the package init with constant keys:
+// the key set is exact (the map is assumed not to be modified afterwards), the values are unconstrained.
 func (x *Exec) globalConst(s *State, g *ssa.Global, T types.Type) (*Val, bool) {
-	return nil, false
+	mt, ok := T.Underlying().(*types.Map)
+	if !ok || g.Pkg == nil {
+		return nil, false
+	}
+	initFn := g.Pkg.Func("init")
+	if initFn == nil {
+		return nil, false
+	}
+	var mk *ssa.MakeMap
+	for _, b := range initFn.Blocks {
+		for _, in := range b.Instrs {
+			if st, ok := in.(*ssa.Store); ok && st.Addr == g {
+				if m, ok := st.Val.(*ssa.MakeMap); ok {
+					mk = m
+				}
+			}
+		}
+	}
+	if mk == nil {
+		return nil, false
+	}
+	var keys []string
+	for _, ref := range *mk.Referrers() {
+		switch r := ref.(type) {
+		case *ssa.MapUpdate:
+			c, ok := r.Key.(*ssa.Const)
+			if !ok {
+				return nil, false
+			}
+			keys = append(keys, x.constVal(s, c).S)
+		case *ssa.Store, *ssa.DebugRef:
+		default:
+			return nil, false
+		}
+	}
+	ms := x.mapSort(mt)
+	name := "g." + sanitize(g.Pkg.Pkg.Path()+"."+g.Name())
+	x.c.P.declare(name, fmt.Sprintf("(declare-const %s %s)", name, ms))
+	ks := x.c.sortOf(mt.Key())
+	var in []string
+	for _, k := range keys {
+		in = append(in, eq("k", k))
+	}
+	ax := fmt.Sprintf("(assert (forall ((k %s)) (! (= (select (dom_%s %s) k) %s) :pattern ((select (dom_%s %s) k)))))", ks, ms, name, or(in...), ms, name)
+	// the stored pointers are non-nil
+	if _, isPtr := mt.Elem().Underlying().(*types.Pointer); isPtr && x.c.sortOf(mt.Elem()) == "Int" {
+		ax += fmt.Sprintf("\n(assert (forall ((k %s)) (! (=> (select (dom_%s %s) k) (not (= (select (val_%s %s) k) 0))) :pattern ((select (val_%s %s) k)))))", ks, ms, name, ms, name, ms, name)
+	}
+	x.c.P.axiom("global_"+name, []string{name}, ax)
+	x.c.note("global map " + g.String() + ": key set taken from the package initialiser, assumed immutable")
+	id := x.newObj(s, T, g.Name(), name, false)
+	return &Val{T: T, Ptr: &Ptr{Obj: id, Nil: "false"}}, true
 }
 
 func (x *Exec) rangeInit(s *State, env map[ssa.Value]*Val, in *ssa.Range) *Val {
